@@ -55,6 +55,68 @@ def run_case(case):
     return res
 
 
+def run_big(case):
+    """size relations: the advertised chunk is min(rpc, lines) whatever that is in BYTES (chunks of 2^26 .. > 2^31 bytes), and the
+    tree does not depend on rpc.  Pixels are compared on windows (the images are up to 2.2 GB)."""
+    import shutil
+
+    import ceos_alos2
+
+    from harness import bigimg, checklib as cl, imgrun, oracle, project
+
+    n, p = case["n"], case["p"]
+    res = {"case": case, "bad": [], "pairs": 0}
+    d = None
+    try:
+        if case["sparse"]:
+            d = cl.fresh_dir("sparse_")
+            b = bigimg.build("1.5", n, p, case["seed"], sparse_dir=d)
+            url = d
+            # one pass over the file in small requests writes the index; every further open is served from it
+            ceos_alos2.open_alos2(url, backend_options={"use_cache": False, "create_cache": True, "records_per_chunk": 64})
+            base = {}
+        else:
+            b = bigimg.build("1.5", n, p, case["seed"])
+            url = imgrun.put_on_fs(b, case["fs"], f"c06big_{case['seed']}")
+            base = {"use_cache": False}
+        im = b.images[0]
+        ref = None
+        for rpc in case["rpcs"]:
+            opts = dict(base)
+            if rpc is not None:
+                opts["records_per_chunk"] = rpc
+            try:
+                tree = ceos_alos2.open_alos2(url, backend_options=opts)
+                proj = project.project_tree(tree, load=True, skip_data=("data",))
+                da = tree[f"imagery/{im['group']}/data"]
+                rows, cols = [0, n // 2, n - 1], list(range(0, min(p, 5))) + [p - 1]
+                vals = da.isel(rows=rows, columns=cols).values if not case["sparse"] else da.isel(rows=[n - 1], columns=cols).values
+                msg = oracle.pixels_match(vals, im, rows=rows if not case["sparse"] else [n - 1], cols=cols) if not case["sparse"] else (None if not vals.any() else "non-zero sample read from a hole")
+                if msg:
+                    res["bad"].append((rpc, f"pixels: {msg}"))
+            except BaseException as e:  # noqa: B902
+                res["bad"].append((rpc, f"open/load failed: {type(e).__name__}: {str(e)[:150]}"))
+                continue
+            node = proj[f"/imagery/{im['group']}"]["vars"]["data"]
+            enc = node.pop("encoding")
+            eff = 1024 if rpc is None else rpc
+            want = {"rows": min(eff, n), "columns": p}
+            if enc.get("preferred_chunksizes") != want:
+                res["bad"].append((rpc, f"preferred_chunksizes {enc.get('preferred_chunksizes')}, expected {want} (one chunk = {min(eff, n) * (im['prefix'] + p * im['bps'])} bytes)"))
+            canon = repr(proj)
+            if ref is None:
+                ref = (rpc, canon)
+            elif canon != ref[1]:
+                res["bad"].append((rpc, f"tree (all but pixel data) differs from rpc={ref[0]}"))
+            res["pairs"] += 1
+        if not case["sparse"]:
+            imgrun.drop_from_fs(url, case["fs"])
+    finally:
+        if d:
+            shutil.rmtree(d, ignore_errors=True)
+    return res
+
+
 def body(chk):
     from harness import iotrace, tlc
     from harness import layout as L
@@ -84,7 +146,19 @@ def body(chk):
         for (_, _, n, p) in c["images"]:
             bps = 8 if c["level"] == "1.1" else 2
             want.append(dict(file="image", kind="signal" if c["level"] == "1.1" else "processed", n=n, ndata=p * bps, bps=bps))
+    want += [dict(file="image", kind="processed", n=1, ndata=2, bps=2), dict(file="image", kind="processed", n=1, ndata=2 * 499900, bps=2),
+             dict(file="image", kind="processed", n=70, ndata=2 * 494904, bps=2), dict(file="image", kind="processed", n=300, ndata=2 * 450000, bps=2)]
     L.instances(want)
+    bigcases = [dict(n=70, p=494904, sparse=False, fs="vtrace", seed=chk.seed + 61, rpcs=[None, 1, 33, 67, 68, 69, 70, 71, 10**6]),
+                dict(n=2200, p=499900, sparse=True, fs="local", seed=chk.seed + 62, rpcs=[None, 64, 2146, 2147, 2148, 2199, 2200, 2201, 4096, 10**6, 10**12])]
+    if chk.tier == "thorough":
+        bigcases.append(dict(n=300, p=450000, sparse=False, fs="local", seed=chk.seed + 63, rpcs=[None, 149, 150, 298, 299, 300, 301, 10**9]))
+    bigres = checklib.pmap(run_big, bigcases, chk.scratch, procs=len(bigcases))
+    for res in bigres:
+        c = res["case"]
+        chk.count(res["pairs"], f"big:{c['n']}x{c['p']}")
+        for rpc, msg in res["bad"]:
+            chk.violation(f"rpc-dependence:size:{c['n']}x{c['p']}:rpc={rpc}", f"{'sparse local file' if c['sparse'] else c['fs']}: {msg}", {"case": c, "rpc": rpc})
     results = checklib.pmap(run_case, cases, chk.scratch)
     batch = iotrace.TraceBatch(os.path.join(chk.scratch, "c06.ndjson"))
     tinfo = {}
@@ -143,7 +217,9 @@ def body(chk):
         chk.sample({"product": res["case"]["level"], "images": [i[2:] for i in res["case"]["images"]], "fs": res["case"]["fs"],
                     "rpcs": [str(x) for x in res["case"]["rpcs"]], "differences": res["bad"][:3]})
     chk.assumptions += ["trees are compared after loading every variable (pixels included) and normalising NaN / -0.0",
-                        "very large rpc = 10^6, 10^12, sys.maxsize; the default (option absent) is 1024"]
+                        "very large rpc = 10^6, 10^12, sys.maxsize; the default (option absent) is 1024",
+                        "size family: 70 lines of 990 000 bytes (chunks across 2^26) in memory, 2200 lines of 999 992 bytes (chunks across 2^31) as a "
+                        "sparse local file read once in 64-line requests, then opened through its index with every rpc"]
     from harness import sessioncheck
 
     sessioncheck.standard(chk)
